@@ -72,6 +72,8 @@ def render_item(it):
         return "#define %s %d" % (it[1], it[2])
     if k == "macrodots":
         return "#define %s ..." % it[1]
+    if k == "sconst":
+        return "static const int %s = %d;" % (it[1], it[2])
     raise ValueError(it)
 
 
@@ -135,15 +137,15 @@ def random_history(rng):
     vals = [1, 2, 1000, 256, 257, -5, -6, 0]
 
     def item():
-        k = rng.choice(["typedef", "var", "func", "macroint", "macroint", "macrodots"])
+        k = rng.choice(["typedef", "var", "func", "macroint", "macroint", "macrodots", "sconst"])
         if k == "typedef":
             return ("typedef", rng.choice(T), rng.choice(["int", "long", "int *", "int[3]"]))
         if k == "var":
             return ("var", rng.choice(G), rng.choice(["int", "int *"]), rng.random() < 0.5)
         if k == "func":
             return ("func", rng.choice(G), rng.choice(["int(*)(int)", "long(*)(void)"]))
-        if k == "macroint":
-            return ("macroint", rng.choice(M), rng.choice(vals))
+        if k in ("macroint", "sconst"):
+            return (k, rng.choice(M), rng.choice(vals))
         return ("macrodots", rng.choice(M))
     return [([item() for _ in range(rng.randint(1, 3))], rng.random() < 0.25) for _ in range(rng.randint(2, 10))]
 
